@@ -42,8 +42,8 @@ type Profile struct {
 	EpochsToSave  uint64
 	KeepPools     bool // keep the rewards allocation pools funded
 	SmallBalances bool
-	PolicyHeavy   bool // plans / projects carry chain policies and selected-provider lists
-	TightCU       bool // project total CU limits below subscription CU
+	PolicyHeavy   bool         // plans / projects carry chain policies and selected-provider lists
+	TightCU       bool         // project total CU limits below subscription CU
 	Prologue      func(s *Sim) // directed opening of the history, run after BuildWorld
 }
 
@@ -123,6 +123,7 @@ func (s *Sim) planTemplate(index string) planstypes.Plan {
 		p.PlanPolicy = planstypes.Policy{TotalCuLimit: 3000, EpochCuLimit: 1000, MaxProvidersToPair: 2, GeolocationProfile: 1}
 		p.AnnualDiscountPercentage = 0
 		p.AllowOveruse = false
+		p.OveruseRate = 0 // (a plan that forbids overuse must not carry an overuse rate, or every proposal with it is refused)
 	}
 	return p
 }
